@@ -203,11 +203,24 @@ pub fn compare(expected: &Value, out: &[Out]) -> Option<Value> {
             while j < toks.len() && numeric(toks[j]) {
                 j += 1;
             }
-            let n = rest.chars().take_while(|c| c.is_ascii_digit()).count();
+            // literal digits that follow the run in the expectation cannot be told apart: leave them
+            let mut d = 0;
+            while j + d < toks.len() && toks[j + d].len() == 1 && toks[j + d].as_bytes()[0].is_ascii_digit() {
+                d += 1;
+            }
+            let n_all = rest.chars().take_while(|c| c.is_ascii_digit()).count();
+            if j < toks.len() && (toks[j] == "<date>" || toks[j] == "<date?>") {
+                // the date that follows starts with digits as well: nothing more can be told apart
+                return if n_all > j - i { None } else { Some(json!({"what": "numeric atom missing", "matched": shown, "rest": rest})) };
+            }
+            if n_all < j - i + d {
+                return Some(json!({"what": "numeric atom missing", "matched": shown, "rest": rest}));
+            }
+            let n = n_all - d;
             if n < j - i {
                 return Some(json!({"what": "numeric atom missing", "matched": shown, "rest": rest}));
             }
-            if j - i == 1 && t == "<pid>" && rest[..n] != std::process::id().to_string() {
+            if j - i == 1 && d == 0 && t == "<pid>" && rest[..n] != std::process::id().to_string() {
                 return Some(json!({"what": "process id differs", "matched": shown, "rest": rest}));
             }
             shown.push_str(&rest[..n]);
@@ -280,4 +293,103 @@ pub fn main(args: &[String]) {
     });
     write_ndjson(&args[1], &res);
     println!("{}", json!({"cases": cases.len(), "mismatches": res.len()}));
+}
+
+// ---------------------------------------------------------------- C10: width writers
+const C1: [char; 4] = ['a', 'b', 'Z', '7'];
+const C2: [char; 4] = ['\u{e9}', '\u{fc}', '\u{301}', '\u{f1}']; // incl. a combining mark
+const C3: [char; 4] = ['\u{4e16}', '\u{754c}', '\u{2713}', '\u{20ac}'];
+const C4: [char; 4] = ['\u{1F600}', '\u{1F389}', '\u{1D11E}', '\u{10348}'];
+
+fn ch(class: u64, i: usize) -> char {
+    match class {
+        1 => C1[i % 4],
+        2 => C2[i % 4],
+        3 => C3[i % 4],
+        _ => C4[i % 4],
+    }
+}
+
+fn check_width(idx: usize, case: &Value) -> Option<Value> {
+    let classes: Vec<u64> = case["text"].as_array().unwrap().iter().map(|v| v.as_u64().unwrap()).collect();
+    let chars: Vec<char> = classes.iter().enumerate().map(|(i, c)| ch(*c, i + idx)).collect();
+    let cuts: Vec<usize> = case["cuts"].as_array().unwrap().iter().map(|v| v.as_u64().unwrap() as usize).collect();
+    let prm = &case["prm"];
+    let (mn, mx) = (prm["min"].as_i64().unwrap(), prm["max"].as_i64().unwrap());
+    let fill: char = if prm["fill"].as_u64().unwrap() == 3 { ['\u{4e16}', '\u{2713}'][idx % 2] } else { ['*', '}', ':', '0'][idx % 4] };
+    let right = prm["align"] == "R";
+    let mut pattern = String::from("{m");
+    if mn >= 0 || mx >= 0 {
+        pattern.push(':');
+        if mn >= 0 {
+            pattern.push(fill);
+            pattern.push(if right { '>' } else { '<' });
+            pattern.push_str(&mn.to_string());
+        }
+        if mx >= 0 {
+            pattern.push('.');
+            pattern.push_str(&mx.to_string());
+        }
+    }
+    pattern.push('}');
+    // the message arrives in pieces cut at the given character positions
+    let mut pieces: Vec<String> = vec![];
+    let mut cur = String::new();
+    for (i, c) in chars.iter().enumerate() {
+        cur.push(*c);
+        if cuts.contains(&(i + 1)) {
+            pieces.push(std::mem::take(&mut cur));
+        }
+    }
+    if !cur.is_empty() || pieces.is_empty() {
+        pieces.push(cur);
+    }
+    let script: Vec<usize> = case["script"].as_array().unwrap().iter().map(|v| v.as_u64().unwrap() as usize).collect();
+    let enc = match catch(|| log4rs::encode::pattern::PatternEncoder::new(&pattern)) {
+        Ok(e) => e,
+        Err(p) => return Some(json!({"what": "PatternEncoder::new panicked", "pattern": pattern, "error": p})),
+    };
+    let mut cap = Cap::new(script);
+    let msg = Pieces(&pieces);
+    let r = catch(|| enc.encode(&mut cap, &log::Record::builder().level(log::Level::Info).args(format_args!("{}", msg)).build()));
+    match r {
+        Err(p) => return Some(json!({"what": "encode panicked", "pattern": pattern, "error": p})),
+        Ok(Err(e)) => return Some(json!({"what": "encode failed", "pattern": pattern, "error": e.to_string()})),
+        Ok(Ok(())) => {}
+    }
+    let mut bytes = vec![];
+    for o in &cap.out {
+        if let Out::Bytes(b) = o {
+            bytes.extend_from_slice(b);
+        }
+    }
+    let got = match String::from_utf8(bytes) {
+        Ok(s) => s,
+        Err(e) => return Some(json!({"what": "output is not valid UTF-8", "pattern": pattern, "pieces": pieces, "bytes": format!("{:?}", e.as_bytes())})),
+    };
+    if mx >= 0 && got.chars().count() as i64 > mx {
+        return Some(json!({"what": "more than max characters emitted", "pattern": pattern, "pieces": pieces, "actual": got}));
+    }
+    if case["exact"].as_bool().unwrap() {
+        let keep = case["keep"].as_u64().unwrap() as usize;
+        let pad = case["pad"].as_u64().unwrap() as usize;
+        let body: String = chars[..keep].iter().collect();
+        let padding: String = std::iter::repeat(fill).take(pad).collect();
+        let want = if right { format!("{}{}", padding, body) } else { format!("{}{}", body, padding) };
+        if got != want {
+            return Some(json!({"what": "width law", "pattern": pattern, "pieces": pieces, "accept_script": case["script"], "expected": want, "actual": got}));
+        }
+    }
+    None
+}
+
+/// `width <cases.ndjson> <out.ndjson>`
+pub fn main_width(args: &[String]) {
+    quiet_panics();
+    let rows = read_ndjson(&args[0]);
+    let res = par_map(&rows, threads(), |i, c| {
+        check_width(i, c).into_iter().map(|m| json!({"case": i, "input": c, "mismatch": m})).collect()
+    });
+    write_ndjson(&args[1], &res);
+    println!("{}", json!({"cases": rows.len(), "mismatches": res.len()}));
 }
